@@ -606,6 +606,140 @@ func (m *Model) casPredicateHelper(fn *ssa.Function) (existing, expected int, ok
 	return ea, eb, true
 }
 
+// casReadCompareHelper: h reads documents.cas of a row through a transaction handle it is given
+// and compares it with one of its parameters (a CAS by value, or by pointer with nil = "none"):
+// its error result (index errIdx) is nil only when the parameter was nil or equal to the CAS read.
+// Returns the index of that parameter.
+func (m *Model) casReadCompareHelper(h *ssa.Function, errIdx int) (int, bool) {
+	xp, _, ok := m.casReadCompareCut(h, errIdx)
+	return xp, ok
+}
+
+// casReadCompareCut: as casReadCompareHelper; also hands back h's CFG cut at the edges on which
+// the comparison passed (nil when the comparison is delegated to a predicate helper).
+func (m *Model) casReadCompareCut(h *ssa.Function, errIdx int) (int, *cut, bool) {
+	if h == nil || !m.inPkg(h) || h.Blocks == nil || h.Parent() != nil {
+		return 0, nil, false
+	}
+	res := h.Signature.Results()
+	if errIdx != res.Len()-1 || !isErrorType(res.At(errIdx).Type()) {
+		return 0, nil, false
+	}
+	// the cell the row's cas is scanned into, through a *sql.Tx parameter
+	var casCell ssa.Value
+	for _, sc := range m.scanCalls() {
+		if sc.Fn != h || sc.Site == nil || sc.Site.Classes[HPool] || sc.Site.Classes[HClosed] {
+			continue
+		}
+		for _, v := range sc.Site.Variants {
+			st := v.Stmt()
+			if st == nil || st.Select == nil || len(st.Select.From) != 1 || lower(st.Select.From[0].Name) != "documents" {
+				continue
+			}
+			for i, c := range st.Select.Cols {
+				if isCol(c.Expr, "cas") && i < len(sc.Dests) {
+					casCell = sc.Dests[i]
+				}
+			}
+		}
+	}
+	if casCell == nil {
+		return 0, nil, false
+	}
+	isCasLoad := func(v ssa.Value) bool {
+		ld, ok := stripConv(v).(*ssa.UnOp)
+		return ok && ld.Op == token.MUL && ld.X == casCell
+	}
+	paramOf := func(v ssa.Value) int {
+		v = stripConv(v)
+		if ld, ok := v.(*ssa.UnOp); ok && ld.Op == token.MUL {
+			v = stripConv(ld.X)
+		}
+		if p, ok := v.(*ssa.Parameter); ok {
+			for i, q := range h.Params {
+				if q == p {
+					return i
+				}
+			}
+		}
+		return -1
+	}
+	c := newCut()
+	xp := -1
+	for _, iff := range allIfs(h) {
+		cd := condOf(iff)
+		eq, ok := cd.equalEdge()
+		if !ok {
+			continue
+		}
+		switch {
+		case isCasLoad(cd.X) && paramOf(cd.Y) >= 0:
+			xp = paramOf(cd.Y)
+			c.cutEdge(iff.Block(), eq)
+		case isCasLoad(cd.Y) && paramOf(cd.X) >= 0:
+			xp = paramOf(cd.X)
+			c.cutEdge(iff.Block(), eq)
+		}
+	}
+	// ... or the comparison is left to a predicate helper that is handed the cell and the parameter,
+	// and whose verdict is what h returns
+	var verdict ssa.Value
+	if xp < 0 {
+		m.eachCall(h, func(cl ssa.CallInstruction) {
+			call, ok := cl.(*ssa.Call)
+			if !ok {
+				return
+			}
+			ei, xi, ok := m.casPredicateHelper(call.Common().StaticCallee())
+			if !ok || ei >= len(call.Common().Args) || xi >= len(call.Common().Args) {
+				return
+			}
+			ex := stripConv(call.Common().Args[ei])
+			if ex != casCell && !isCasLoad(ex) {
+				return
+			}
+			if pi := paramOf(call.Common().Args[xi]); pi >= 0 {
+				xp, verdict = pi, call
+			}
+		})
+	}
+	if xp < 0 {
+		return 0, nil, false
+	}
+	if verdict != nil {
+		for _, ret := range returnsOf(h) {
+			rv := ret.Results[errIdx]
+			if rv == verdict || m.errNonNil(rv, ret.Block(), 0) {
+				continue
+			}
+			return 0, nil, false // can succeed without the predicate's verdict
+		}
+		return xp, nil, true
+	}
+	// "no CAS supplied" (nil pointer) passes too
+	for _, iff := range allIfs(h) {
+		cd := condOf(iff)
+		eq, ok := cd.equalEdge()
+		if !ok || !(isNilConst(cd.X) || isNilConst(cd.Y)) {
+			continue
+		}
+		other := cd.X
+		if isNilConst(cd.X) {
+			other = cd.Y
+		}
+		if p, ok := stripConv(other).(*ssa.Parameter); ok && p == h.Params[xp] {
+			c.cutEdge(iff.Block(), eq)
+		}
+	}
+	reach := entryReach(h, c)
+	for _, ret := range returnsOf(h) {
+		if reach[ret.Block().Index] && !m.errNonNil(ret.Results[errIdx], ret.Block(), 0) {
+			return 0, nil, false // can succeed without the comparison having passed
+		}
+	}
+	return xp, c, true
+}
+
 // structArgField: for an argument that is a small struct literal holding one value (a wrapper
 // such as casCheck{expected: p}), the value stored in it; otherwise the argument itself.
 func structArgField(arg ssa.Value) ssa.Value {
@@ -756,6 +890,43 @@ func (m *Model) ruleCAS(r *Results) {
 							d.cutEqual(c)
 							d.cutEqual(c0)
 						}
+						// the error of a helper that reads the row and compares its CAS itself
+						if ex, ok := stripConv(other).(*ssa.Extract); ok {
+							if call, ok := ex.Tuple.(*ssa.Call); ok {
+								if xi, ok := m.casReadCompareHelper(call.Common().StaticCallee(), ex.Index); ok && xi < len(call.Common().Args) {
+									rv, rfr := m.resolve(structArgField(call.Common().Args[xi]), fr)
+									expIsP := stripConv(rv) == ssa.Value(P)
+									if al, ok := rv.(*ssa.Alloc); ok {
+										if st := singleStore(al); st != nil {
+											sv, _ := m.resolve(st.Val, rfr)
+											expIsP = stripConv(sv) == ssa.Value(P)
+										}
+									}
+									if expIsP {
+										d.cutEqual(c)
+										d.cutEqual(c0)
+										sinks = append(sinks, "read-and-compare helper "+call.Common().StaticCallee().Name())
+									}
+								}
+							}
+						}
+						if call, ok := stripConv(other).(*ssa.Call); ok {
+							if xi, ok := m.casReadCompareHelper(call.Common().StaticCallee(), 0); ok && xi < len(call.Common().Args) {
+								rv, rfr := m.resolve(structArgField(call.Common().Args[xi]), fr)
+								expIsP := stripConv(rv) == ssa.Value(P)
+								if al, ok := rv.(*ssa.Alloc); ok {
+									if st := singleStore(al); st != nil {
+										sv, _ := m.resolve(st.Val, rfr)
+										expIsP = stripConv(sv) == ssa.Value(P)
+									}
+								}
+								if expIsP {
+									d.cutEqual(c)
+									d.cutEqual(c0)
+									sinks = append(sinks, "read-and-compare helper "+call.Common().StaticCallee().Name())
+								}
+							}
+						}
 						// helper predicate result == nil
 						if call, ok := stripConv(other).(*ssa.Call); ok {
 							if ei, xi, ok := m.casPredicateHelper(call.Common().StaticCallee()); ok {
@@ -840,7 +1011,7 @@ func (m *Model) ruleCAS(r *Results) {
 				}
 				// with the insert-only flag set, no statement that replaces the body of a row WITH a body can run
 				if wp.site.Fn == K && nA > 0 {
-					for _, st := range m.sqlLiveStmts(wp.site, K, cA) {
+					for _, st := range m.sqlLiveStmts(wp.site, K, cA, isP, casAssume{addOnly: 1, otherBits: 2}) {
 						w := writeInfo(st)
 						if st.Kind != sqlp.SUpdate || w == nil || w.Update == nil {
 							continue
@@ -867,6 +1038,8 @@ func (m *Model) ruleCAS(r *Results) {
 					r.ok(rule, key, pos, "unreachable once the pass edges are removed; guarded by %s", strings.Join(uniq(sinks), " + "))
 				case !reachWrite:
 					r.ok(rule, key, pos, "reachable only when no CAS is supplied (nil pointer / zero CAS / insert flag)")
+				case m.guardedInsideHelper(wp.instr, wp.site, fr, P):
+					r.ok(rule, key, pos, "guarded inside the helper the closure hands the write to: it reads the row's CAS, compares it with the expected CAS and reaches the write only past that comparison")
 				default:
 					msg := "the write is reachable on a path that never compares the expected CAS with the row's current CAS inside this transaction"
 					if len(problems) > 0 {
@@ -962,6 +1135,7 @@ func (m *Model) sqlCasGuard(s *SQLSite, K *ssa.Function, c *cut, isP func(ssa.Va
 				}
 			}
 		}
+		m.helperCutUnder(fr, isP, casAssume{pZero: 2, addOnly: 2}, hc)
 		cc := &cutCFG{hc, entryReach(fr.fn, hc)}
 		helperCuts[fr.call] = cc
 		return cc
@@ -2466,14 +2640,19 @@ func (m *Model) ruleREADNULL(r *Results) {
 					continue
 				}
 				// is the destination a named result ([]byte) of a function whose results are (val, cas, ..., err)?
-				dest, ok := sc.Dests[i].(*ssa.Alloc)
-				if !ok {
+				// ... or a field of a local struct that is returned as a whole (a small row type)
+				dest := stripConv(sc.Dests[i])
+				var base ssa.Value = dest
+				if fa, isFA := dest.(*ssa.FieldAddr); isFA {
+					base = stripConv(fa.X)
+				}
+				if _, ok := base.(*ssa.Alloc); !ok {
 					continue
 				}
 				isResult := false
 				for _, ret := range returnsOf(fn) {
 					for _, res := range ret.Results {
-						if ld, ok := res.(*ssa.UnOp); ok && ld.X == ssa.Value(dest) {
+						if ld, ok := res.(*ssa.UnOp); ok && ld.Op == token.MUL && (sameCell(ld.X, dest) || stripConv(ld.X) == base) {
 							isResult = true
 						}
 					}
@@ -2504,10 +2683,10 @@ func (m *Model) ruleREADNULL(r *Results) {
 					if isNilConst(cd.X) {
 						other = cd.Y
 					}
-					if ld, ok := stripConv(other).(*ssa.UnOp); ok && ld.X == ssa.Value(dest) {
+					if ld, ok := stripConv(other).(*ssa.UnOp); ok && ld.Op == token.MUL && sameCell(ld.X, dest) {
 						// on the equal edge, the error result gets a MissingError
 						for _, in := range eq.Instrs {
-							if mi, ok := in.(*ssa.MakeInterface); ok && isNamed(mi.X.Type(), sgbucketPath, "MissingError") {
+							if v, ok := in.(ssa.Value); ok && m.makesNamedError(v, "MissingError", 0) {
 								found = true
 							}
 						}
@@ -2628,15 +2807,37 @@ func (m *Model) isDocWriter(f *ssa.Function) bool {
 // without a guard that admits only rows without a body? (INSERTs are governed by R-INSERT-GUARD.)
 // sqlLiveStmts: the statement variants of site s that can still be executed in K once the edges
 // of cut c0 are removed (the text is re-folded over the cut CFG).
-func (m *Model) sqlLiveStmts(s *SQLSite, K *ssa.Function, c0 *cut) []*sqlp.Stmt {
+func (m *Model) sqlLiveStmts(s *SQLSite, K *ssa.Function, c0 *cut, isP func(ssa.Value) bool, asm casAssume) []*sqlp.Stmt {
 	q := s.textArg()
 	reach := entryReach(K, c0)
 	if !reach[s.Call.Block().Index] {
 		return nil
 	}
 	ev := newStrEval(m)
+	hcuts := map[ssa.CallInstruction]*cut{}
+	hreach := map[ssa.CallInstruction]map[int]bool{}
+	helperCut := func(fr *frame) (*cut, map[int]bool) {
+		if hc, ok := hcuts[fr.call]; ok {
+			return hc, hreach[fr.call]
+		}
+		hc := newCut()
+		m.helperCutUnder(fr, isP, asm, hc)
+		hcuts[fr.call], hreach[fr.call] = hc, entryReach(fr.fn, hc)
+		return hc, hreach[fr.call]
+	}
+	ev.liveRet = func(ret *ssa.Return, fr *frame) bool {
+		if fr.caller == nil {
+			return true
+		}
+		_, hr := helperCut(fr)
+		return hr[ret.Block().Index]
+	}
 	ev.liveEdge = func(pred, blk *ssa.BasicBlock, fr *frame) bool {
-		if fr.caller != nil || fr.fn != K {
+		if fr.caller != nil {
+			hc, hr := helperCut(fr)
+			return hr[pred.Index] && !hc.edges[edge{pred.Index, blk.Index}]
+		}
+		if fr.fn != K {
 			return true
 		}
 		if !reach[pred.Index] || c0.edges[edge{pred.Index, blk.Index}] {
@@ -2680,8 +2881,30 @@ func (m *Model) sqlZeroCasUnguarded(s *SQLSite, K *ssa.Function, c0 *cut, isP fu
 		return nil
 	}
 	ev := newStrEval(m)
+	hcuts := map[ssa.CallInstruction]*cut{}
+	hreach := map[ssa.CallInstruction]map[int]bool{}
+	helperCut := func(fr *frame) (*cut, map[int]bool) {
+		if hc, ok := hcuts[fr.call]; ok {
+			return hc, hreach[fr.call]
+		}
+		hc := newCut()
+		m.helperCutUnder(fr, isP, casAssume{pZero: 1}, hc)
+		hcuts[fr.call], hreach[fr.call] = hc, entryReach(fr.fn, hc)
+		return hc, hreach[fr.call]
+	}
+	ev.liveRet = func(ret *ssa.Return, fr *frame) bool {
+		if fr.caller == nil {
+			return true
+		}
+		_, hr := helperCut(fr)
+		return hr[ret.Block().Index]
+	}
 	ev.liveEdge = func(pred, blk *ssa.BasicBlock, fr *frame) bool {
-		if fr.caller != nil || fr.fn != K {
+		if fr.caller != nil {
+			hc, hr := helperCut(fr)
+			return hr[pred.Index] && !hc.edges[edge{pred.Index, blk.Index}]
+		}
+		if fr.fn != K {
 			return true
 		}
 		if !reach[pred.Index] || c0.edges[edge{pred.Index, blk.Index}] {
@@ -2917,4 +3140,219 @@ func (m *Model) ruleRETRYSTATE(r *Results) {
 		}
 	}
 	r.floor(rule, 3)
+}
+
+// casAssume: what a cut CFG of a CAS-guarded closure assumes about the caller's inputs
+// (0 = nothing, 1 = true, 2 = false).
+type casAssume struct {
+	pZero     int // the expected CAS is 0
+	addOnly   int // the insert-only option bit is set
+	otherBits int // some other option bit is set
+}
+
+func tri(b bool) int {
+	if b {
+		return 1
+	}
+	return 2
+}
+
+// boolUnder evaluates a boolean value under an assumption: conditions that were computed ahead of
+// the branch (`insert := addOnly || cas == 0`, possibly handed to a statement-choosing helper as a
+// bool parameter) are followed through cells, parameters and the phis of && / ||.
+func (m *Model) boolUnder(v ssa.Value, fr *frame, isP func(ssa.Value) bool, asm casAssume, depth int) (val, known bool) {
+	if depth > 10 || v == nil {
+		return false, false
+	}
+	rv, rfr := m.resolve(v, fr)
+	v, fr = stripConv(rv), rfr
+	switch x := v.(type) {
+	case *ssa.Const:
+		if x.Value != nil && x.Value.Kind() == constant.Bool {
+			return constant.BoolVal(x.Value), true
+		}
+	case *ssa.UnOp:
+		if x.Op == token.NOT {
+			b, k := m.boolUnder(x.X, fr, isP, asm, depth+1)
+			return !b, k
+		}
+	case *ssa.BinOp:
+		if x.Op != token.EQL && x.Op != token.NEQ {
+			return false, false
+		}
+		other := x.X
+		if isZeroConst(x.X) {
+			other = x.Y
+		} else if !isZeroConst(x.Y) {
+			return false, false
+		}
+		ro, _ := m.resolve(other, fr)
+		isZero := 0
+		if isP(ro) {
+			isZero = asm.pZero
+		} else if bo, ok := stripConv(ro).(*ssa.BinOp); ok && bo.Op == token.AND {
+			if cst, ok := bo.Y.(*ssa.Const); ok && cst.Value != nil {
+				bit := asm.otherBits
+				if ao := m.sgConst("AddOnly"); ao != nil && constant.Compare(cst.Value, token.EQL, ao) {
+					bit = asm.addOnly
+				}
+				switch bit {
+				case 1:
+					isZero = 2
+				case 2:
+					isZero = 1
+				}
+			}
+		}
+		if isZero == 0 {
+			return false, false
+		}
+		return (isZero == 1) == (x.Op == token.EQL), true
+	case *ssa.Phi:
+		// the frame of the function the phi lives in
+		gfr := fr
+		for gfr != nil && gfr.fn != x.Parent() {
+			gfr = gfr.caller
+		}
+		if gfr == nil {
+			return false, false
+		}
+		// blocks of that function that cannot be reached under the assumption
+		var unreach map[int]bool
+		if depth < 4 {
+			hc := newCut()
+			for _, iff := range allIfs(x.Parent()) {
+				if iff.Block() == x.Block() {
+					continue
+				}
+				if b, k := m.boolUnder(iff.Cond, gfr, isP, asm, depth+4); k {
+					dead := iff.Block().Succs[0]
+					if b {
+						dead = iff.Block().Succs[1]
+					}
+					hc.cutEdge(iff.Block(), dead)
+				}
+			}
+			if len(hc.edges) > 0 {
+				r := entryReach(x.Parent(), hc)
+				unreach = map[int]bool{}
+				for _, b := range x.Parent().Blocks {
+					if !r[b.Index] {
+						unreach[b.Index] = true
+					}
+				}
+			}
+		}
+		have, res := false, false
+		for i, e := range x.Edges {
+			pred := x.Block().Preds[i]
+			if unreach[pred.Index] {
+				continue
+			}
+			if iff, ok := pred.Instrs[len(pred.Instrs)-1].(*ssa.If); ok {
+				need := pred.Succs[0] == x.Block()
+				if b, k := m.boolUnder(iff.Cond, gfr, isP, asm, depth+1); k && b != need {
+					continue // this way into the join is not taken under the assumption
+				}
+			}
+			b, k := m.boolUnder(e, gfr, isP, asm, depth+1)
+			if !k {
+				return false, false
+			}
+			if have && b != res {
+				return false, false
+			}
+			have, res = true, b
+		}
+		return res, have
+	}
+	return false, false
+}
+
+// helperCutUnder: the cut of a statement-choosing helper's CFG (frame fr) under an assumption:
+// every branch whose condition evaluates to a constant loses its other edge.
+func (m *Model) helperCutUnder(fr *frame, isP func(ssa.Value) bool, asm casAssume, hc *cut) {
+	for _, iff := range allIfs(fr.fn) {
+		if b, k := m.boolUnder(iff.Cond, fr, isP, asm, 0); k {
+			dead := iff.Block().Succs[0]
+			if b {
+				dead = iff.Block().Succs[1]
+			}
+			hc.cutEdge(iff.Block(), dead)
+		}
+	}
+}
+
+// guardedInsideHelper: the instruction of the closure that leads to the write is a call of a
+// package helper that reads the row's CAS through the transaction, compares it with the expected
+// CAS it is handed, and can reach the write only over the edge on which the comparison passed.
+func (m *Model) guardedInsideHelper(instr ssa.Instruction, site *SQLSite, fr *frame, P ssa.Value) bool {
+	call, ok := instr.(ssa.CallInstruction)
+	if !ok {
+		return false
+	}
+	h := call.Common().StaticCallee()
+	if h == nil || !m.inPkg(h) || h.Blocks == nil {
+		return false
+	}
+	res := h.Signature.Results()
+	if res.Len() == 0 {
+		return false
+	}
+	xi, hc, ok := m.casReadCompareCut(h, res.Len()-1)
+	if !ok || hc == nil || xi >= len(call.Common().Args) {
+		return false
+	}
+	rv, _ := m.resolve(call.Common().Args[xi], fr)
+	if stripConv(rv) != P {
+		return false
+	}
+	reach := entryReach(h, hc)
+	found, guarded := false, true
+	m.eachCall(h, func(c ssa.CallInstruction) {
+		leads := c == site.Call
+		if g := c.Common().StaticCallee(); g != nil && m.inPkg(g) && m.reachableLocal(g)[site.Fn] {
+			leads = true
+		}
+		if leads {
+			found = true
+			if reach[c.Block().Index] {
+				guarded = false
+			}
+		}
+	})
+	return found && guarded
+}
+
+// sameCell: the same address value, or two addresses of the same field of the same object.
+func sameCell(a, b ssa.Value) bool {
+	a, b = stripConv(a), stripConv(b)
+	if a == b {
+		return true
+	}
+	fa, ok1 := a.(*ssa.FieldAddr)
+	fb, ok2 := b.(*ssa.FieldAddr)
+	return ok1 && ok2 && fa.Field == fb.Field && stripConv(fa.X) == stripConv(fb.X)
+}
+
+// makesNamedError: v is a freshly made sg-bucket error of the named type: the conversion of such a
+// value to `error`, or a call of a package constructor every return of which makes one.
+func (m *Model) makesNamedError(v ssa.Value, name string, depth int) bool {
+	switch x := v.(type) {
+	case *ssa.MakeInterface:
+		return isNamed(x.X.Type(), sgbucketPath, name)
+	case *ssa.Call:
+		f := x.Common().StaticCallee()
+		if f == nil || !m.inPkg(f) || f.Blocks == nil || depth > 2 || f.Signature.Results().Len() != 1 {
+			return false
+		}
+		rets := returnsOf(f)
+		for _, ret := range rets {
+			if !m.makesNamedError(ret.Results[0], name, depth+1) {
+				return false
+			}
+		}
+		return len(rets) > 0
+	}
+	return false
 }
